@@ -56,7 +56,10 @@ def check_rect(case):
     m = W.shape[1]
     svec = np.broadcast_to(np.asarray(s, float), (m,)) if not isinstance(s, list) else np.array(s, float)
     labels = list(gen.cone_labels(spec)) + ["slack:" + ("vector" if isinstance(s, list) else "zero" if s == 0 else "scalar")]
-    got = bool(confidence_region_is_covered(order, gr.mk_rect(r1), gr.mk_rect(r2), _slack_arr(s)))
+    R1, R2, r1, r2 = gr.region_pair(case, "rect", lambda a, b: confidence_region_is_covered(order, a, b, _slack_arr(s)))
+    if case.get("first"):
+        labels.append("objects-updated-after-a-comparison")
+    got = bool(confidence_region_is_covered(order, R1, R2, _slack_arr(s)))
     lo = np.array(r2["lo"]) - np.array(r1["hi"])
     hi = np.array(r2["hi"]) - np.array(r1["lo"])
     lb, ub, _ = geom.box_cone_margin(W, lo, hi, svec)
@@ -76,7 +79,10 @@ def check_ell(case):
     W = np.asarray(order.ordering_cone.W, float)
     e1, e2, s = case["r1"], case["r2"], case["slack"]
     labels = list(gen.cone_labels(spec)) + ["slack:" + ("vector" if isinstance(s, list) else "zero" if s == 0 else "scalar")]
-    got = bool(confidence_region_is_covered(order, gr.mk_ell(e1), gr.mk_ell(e2), _slack_arr(s)))
+    E1, E2, e1, e2 = gr.region_pair(case, "ell", lambda a, b: confidence_region_is_covered(order, a, b, _slack_arr(s)))
+    if case.get("first"):
+        labels.append("objects-updated-after-a-comparison")
+    got = bool(confidence_region_is_covered(order, E1, E2, _slack_arr(s)))
     nrm = np.linalg.norm(W, axis=1)
     Wn = W / nrm[:, None]
     sl = (np.array(s, float) if isinstance(s, list) else np.full(len(W), float(s))) / nrm
@@ -142,6 +148,19 @@ def st_ell_case(draw, small=False):
     return {"cone": spec, "r1": gr.shift_region(e1, off), "r2": gr.shift_region(dict(e2, c=(c2 + t * v).tolist()), off), "slack": s}
 
 
+@st.composite
+def st_updated(draw, kind):
+    small = kind == "ell" and draw(st.booleans())
+    case = draw(st_rect_case()) if kind == "rect" else draw(st_ell_case(small=small))
+    m = len(case["r1"]["lo"] if kind == "rect" else case["r1"]["c"])
+    if kind == "ell":  # extent of the first ellipsoid, not its distance from the origin
+        sc = case["r1"]["a"] * float(np.sqrt(np.max(np.diag(np.array(case["r1"]["S"])))))
+    else:
+        sc = max(1e-6, float(np.max(np.array(case["r1"]["hi"]) - np.array(case["r1"]["lo"]))))
+    case["first"] = draw(gr.st_first_pair(kind, m, sc, small))
+    return case
+
+
 COMPONENTS = [
     Component("rect_margin_targeted", check_rect, strategy=st_rect_case, quick=1200, thorough=30000,
               rule="hyper-rectangles 1e-4..1e2 incl. zero-width edges; all cone classes; scalar/vector objective-space slack"),
@@ -149,4 +168,8 @@ COMPONENTS = [
               rule="ellipsoids extents 1e-4..1e2, condition <=1e3, radius 0.1..50; per-facet slack"),
     Component("ell_small_correlated", check_ell, strategy=lambda: st_ell_case(small=True), quick=200, thorough=5000,
               rule="extents 1e-5..1e-3 written as radius 10..50 x rotated covariance with entries <= 1e-8; margins 0.1..1 x extent"),
+    Component("rect_updated_objects", check_rect, strategy=lambda: st_updated("rect"), quick=300, thorough=8000,
+              rule="region objects built for another pair, compared once, then moved to the case's pair through update()"),
+    Component("ell_updated_objects", check_ell, strategy=lambda: st_updated("ell"), quick=250, thorough=6000,
+              rule="as rect_updated_objects for ellipsoids; half of them small correlated (covariances differing by < 1e-8)"),
 ]
